@@ -284,8 +284,10 @@ class Engine:
 
     def prove(self, pc, ob):
         """None if pc => ob, else a model of pc and not ob.  pc is re-checked sat from scratch."""
-        if self.solve(pc) is None:
-            raise Inconclusive("path condition not sat: engine bug")
+        if getattr(self, '_pc_ok', None) is not pc:
+            if self.solve(pc) is None:
+                raise Inconclusive("path condition not sat: engine bug")
+            self._pc_ok = pc
         self.st.obligations += 1
         m = self.solve(pc, [z3.Not(ob)])
         if m is None:
